@@ -404,7 +404,11 @@ func (p *Parser) parseSelect(stmt *SelectStatement) error {
 						// 进一步检查：如果前面是SQL关键字，则应该加空格
 						words := strings.Fields(exprStr)
 						if len(words) > 0 {
+							// the word may carry the parenthesis it follows: "(CASE", "-(CASE"
 							lastWord := strings.ToUpper(words[len(words)-1])
+							if i := strings.LastIndex(lastWord, "("); i >= 0 {
+								lastWord = lastWord[i+1:]
+							}
 							// 如果是关键字，应该加空格
 							if isKeyword(lastWord) {
 								shouldAddSpace = true
